@@ -149,3 +149,7 @@ Proof. unfold allfresh; cbn. by rewrite andb_true_iff. Qed.
 Lemma head_wop_app l x : fresh x = true ->
   match l ++ [x] with [] => None | j :: _ => wop j end = match l with [] => None | j :: _ => wop j end.
 Proof. intros H. destruct l; cbn; [by apply fresh_wop|done]. Qed.
+Lemma allfresh_tail l : allfresh l -> allfresh (tail l).
+Proof. destruct l; [done|]. by intros [_ H]%allfresh_cons. Qed.
+Lemma allfresh_head (l : list job) : allfresh l -> forall j js, l = j :: js -> fresh j = true \/ is_Some (susp j).
+Proof. intros H j js ->. left. by apply allfresh_cons in H as [H _]. Qed.
